@@ -4,6 +4,8 @@ import DryocVerif.Spec.X25519
 import DryocVerif.Model.PwhashStr
 import DryocVerif.Model.Argon2
 import DryocVerif.Model.PwhashApi
+import DryocVerif.Model.KeyForms
+import DryocVerif.Model.CurveInst
 open DryocVerif
 namespace Driver.Pwhash
 open DryocVerif.Model.PwhashStr
@@ -26,6 +28,72 @@ def specPwhash (alg outlen ops mem : Nat) (pwd salt : Bytes) : Outcome Bytes :=
 instance the C10 theorems `…_model_…` are about -/
 abbrev argon2ForStr : Argon2Fn := argon2Model
 
+def okErr : Outcome Unit → String
+  | .ok () => "ok"
+  | _ => "err"
+
+def isPanic {α : Type} : Outcome α → Bool
+  | .panic => true
+  | _ => false
+
+/-- `pwhash_obj` answered by the HAND MODELS of the object API (`Model/PwhashApi.lean`), statement by statement as the
+harness (`harness/src/ops_pwhash.rs`) drives the crate:
+`PwHash::hash_with_salt` = `objHashWithSaltRaw`, `h.verify(..)` = `objVerifyRaw`, `h.to_string()` = `objToString`,
+`PwHash::from_string(&s)` + `b.to_string()` = `reencodeRaw`, `b.verify(..)` = `strVerifyRaw`.
+The `so=` field is libsodium's verdict on the string, which no model here computes: as before it is the expectation
+"accepts the password, rejects the wrong one" whenever libsodium can take the string (32-byte hash, 16-byte salt).
+A panic anywhere is the harness's `panic`. -/
+def pwhashObj (ops mem hl : Nat) (pwd salt wrong : Bytes) : String :=
+  match Model.Argon2.objHashWithSaltRaw hl salt ops mem 2 pwd with
+  | .err => "err"
+  | .panic => "panic"
+  | .ok h =>
+    let v1 := Model.Argon2.objVerifyRaw h salt hl ops mem 2 pwd
+    let v2 := Model.Argon2.objVerifyRaw h salt hl ops mem 2 wrong
+    let s := objToString .argon2id ops mem salt h
+    -- `PwHash::from_string(&s)`, then `b.to_string()`, then `b.verify(&pwd).is_ok() && b.verify(&wrong).is_err()`
+    let rt : Outcome String :=
+      match reencodeRaw s with
+      | .err => .ok "from_string(to_string)-failed"
+      | .panic => .panic
+      | .ok again =>
+        let bv : Outcome Bool :=
+          match strVerifyRaw s pwd with
+          | .panic => .panic
+          | .err => .ok false                       -- `&&` short-circuits
+          | .ok () =>
+            match strVerifyRaw s wrong with
+            | .panic => .panic
+            | .err => .ok true
+            | .ok () => .ok false
+        match bv with
+        | .panic => .panic
+        | .err => .panic
+        | .ok bv =>
+          .ok (if again ≠ s then "restring-differs:" ++ String.ofList again
+               else if !bv then "reparsed-verify-wrong" else "rt")
+    if isPanic v1 || isPanic v2 then "panic"
+    else match rt with
+      | .ok rt =>
+        let so := if hl = 32 ∧ salt.length = 16 then "so=ok" ++ (if wrong = pwd then "ok" else "err") else "so=n/a"
+        "ok " ++ hexOrDash h ++ " verify=" ++ okErr v1 ++ okErr v2 ++ " " ++ rt ++ " " ++ so ++ " " ++ String.ofList s
+      | _ => "panic"
+
+/-- `pwhash_keypair` answered by the hand model `Model.KeyForms.deriveKeypair` (`PwHash::derive_keypair`:
+`crypto_pwhash` into a 32-byte secret key — the model `cryptoPwhash`, Argon2id13 — then `KeyPair::from_secret_key`)
+with the executable curve primitives `specPrims`.  `config.hash_length` is not read by `derive_keypair`. -/
+def pwhashKeypair (ops mem : Nat) (pwd salt : Bytes) : String :=
+  match Model.KeyForms.deriveKeypair Model.Curve.specPrims
+      (fun n => Model.Argon2.cryptoPwhash n pwd salt ops mem 2) with
+  | .ok (pk, sk) => "ok " ++ hexOrDash pk ++ " " ++ hexOrDash sk
+  | .err => "err"
+  | .panic => "panic"
+
+def specKeypair (ops mem : Nat) (pwd salt : Bytes) : String :=
+  match specPwhash 2 32 ops mem pwd salt with
+  | .ok sk => "ok " ++ toHex (Spec.X25519.x25519Base sk) ++ " " ++ toHex sk
+  | _ => "err"
+
 def handle (op : String) (args : List String) : Option Ans :=
   match op, args with
   | "pwhash", [alg, outlen, ops, mem, pwd, salt] =>
@@ -36,9 +104,13 @@ def handle (op : String) (args : List String) : Option Ans :=
   | "pwhash_keypair", [ops, mem, pwd, salt] =>
     match ops.toNat?, mem.toNat?, ofHex pwd, ofHex salt with
     | some ops, some mem, some pwd, some salt =>
-      match specPwhash 2 32 ops mem pwd salt with
-      | .ok sk => some ("n/a", "ok " ++ toHex (Spec.X25519.x25519Base sk) ++ " " ++ toHex sk)
-      | _ => some ("n/a", "err")
+      some (pwhashKeypair ops mem pwd salt, specKeypair ops mem pwd salt)
+    | _, _, _, _ => none
+  -- optional 5th argument: a non-default `hash_length` in the Config — not read by `derive_keypair`, ignored by the model
+  | "pwhash_keypair", [ops, mem, pwd, salt, _hl] =>
+    match ops.toNat?, mem.toNat?, ofHex pwd, ofHex salt with
+    | some ops, some mem, some pwd, some salt =>
+      some (pwhashKeypair ops mem pwd salt, specKeypair ops mem pwd salt)
     | _, _, _, _ => none
   | "pwhash_parse", [s] =>
     match strOfHex s with
@@ -75,15 +147,18 @@ def handle (op : String) (args : List String) : Option Ans :=
       | .err => some ("err", "n/a")
       | .panic => some ("panic", "n/a")
     | _, _, _, _ => none
-  | "pwhash_obj", [ops, mem, hl, pwd, salt, _wrong] =>
-    match ops.toNat?, mem.toNat?, hl.toNat?, ofHex pwd, ofHex salt with
-    | some ops, some mem, some hl, some pwd, some salt =>
-      match specPwhash 2 hl ops mem pwd salt with
-      | .ok h =>
-        let so := if hl = 32 ∧ salt.length = 16 then "so=okerr" else "so=n/a"
-        some ("ok " ++ toHex h ++ " verify=okerr rt " ++ so ++ " " ++ String.ofList (encode .argon2id (ops % 2^32) ((mem / 1024) % 2^32) salt h), "n/a")
-      | _ => some ("err", "n/a")
-    | _, _, _, _, _ => none
+  | "pwhash_obj", [ops, mem, hl, pwd, salt, wrong] =>
+    match ops.toNat?, mem.toNat?, hl.toNat?, ofHex pwd, ofHex salt, ofHex wrong with
+    | some ops, some mem, some hl, some pwd, some salt, some wrong =>
+      some (pwhashObj ops mem hl pwd salt wrong, "n/a")
+    | _, _, _, _, _, _ => none
+  -- optional 7th argument: the Config's `salt_length` differs from the length of the caller's salt — ignored by the
+  -- model: `hash_with_salt` hashes the caller's salt and never reads `config.salt_length`
+  | "pwhash_obj", [ops, mem, hl, pwd, salt, wrong, _cfgSaltLen] =>
+    match ops.toNat?, mem.toNat?, hl.toNat?, ofHex pwd, ofHex salt, ofHex wrong with
+    | some ops, some mem, some hl, some pwd, some salt, some wrong =>
+      some (pwhashObj ops mem hl pwd salt wrong, "n/a")
+    | _, _, _, _, _, _ => none
   | "so_pwhash_str", _ => some ("verify=okerr objverify=okerr reencode=same rehash=Some(false)Some(true)Some(true)", "n/a")
   | _, _ => none
 
